@@ -196,6 +196,7 @@ def real_endpoint_scenarios(res, sig):
                     if str(pol) != str(msg.value):
                         note("policy-state", d, "enableBLOB %r for %r from %s: recorded policy %r" % (msg.value, addr, origin, pol), rep)
     wire_scenarios(res, note)
+    closing_connection_scenarios(res, note)
 
 
 def wire_scenarios(res, note):
@@ -245,6 +246,56 @@ def wire_scenarios(res, note):
                     note("relay-set", d, "cut %d order %r: connection 1 was sent %r, connection 2 %r" % (cut, order, w1, w2), rep)
                 if any(t.done() for t in tasks):
                     note("raises", d + ",handler-ended", "a connection handler ended", rep)
+            finally:
+                loop.teardown()
+                del ServerH.connections[:]
+
+
+def closing_connection_scenarios(res, note):
+    """three TCP connections; one of them is on its way out (its transport is already closing, the server has not
+    unregistered it yet) while another one's request is relayed: whatever that connection does about itself, the
+    request reaches the device once and every OTHER healthy connection once - for every position of the dying one and
+    every sender"""
+    from indi.routing import Device, Router
+    from indi.transport.server.tcp import ConnectionHandler as ServerH
+
+    from mc.core import vloop as V
+
+    for dying in (0, 1, 2):
+        for sender in (0, 1, 2):
+            if sender == dying:
+                continue
+            loop = V.VLoop().install()
+            try:
+                got = []
+                router = Router()
+
+                class Rec(Device):
+                    def accepts(self, device):
+                        return True
+
+                    def message_from_client(self, message):
+                        got.append(message.name)
+
+                router.register_device(Rec())
+                hf = ServerH.handler(router)
+                eps = [V.Endpoint(loop, "c%d" % i) for i in range(3)]
+                tasks = [loop.create_task(hf(ep.reader, ep.writer)) for ep in eps]
+                loop.quiesce()
+                eps[dying].transport.closing = True  # is_closing() is true; nothing has been read from it yet
+                eps[sender].feed(b'<getProperties version="1.7" device="A" name="REQ"/>')
+                loop.quiesce()
+                res["transitions"] += 1
+                res["sends"] += 1
+                rep = {"kind": "real-endpoints"}
+                d = "transport=tcp,one-connection-closing"
+                other = [i for i in range(3) if i not in (dying, sender)][0]
+                if got != ["REQ"]:
+                    note("device-delivery", d, "dying %d sender %d: device got %r" % (dying, sender, got), rep)
+                if eps[other].written().count(b'name="REQ"') != 1:
+                    note("relay-set", d, "dying %d sender %d: the healthy connection %d was sent the request %d times" % (dying, sender, other, eps[other].written().count(b'name="REQ"')), rep)
+                if eps[sender].written().count(b'name="REQ"') != 0:
+                    note("relay-to-sender", d, "dying %d sender %d: the request came back to its sender" % (dying, sender), rep)
             finally:
                 loop.teardown()
                 del ServerH.connections[:]
